@@ -6,12 +6,15 @@ import (
 	"fmt"
 	"os"
 	"path/filepath"
+	"regexp"
 	"runtime"
 	"sort"
 	"strconv"
 	"strings"
 	"sync"
 	"time"
+
+	"golang.org/x/tools/go/ssa"
 )
 
 var (
@@ -304,6 +307,7 @@ func runCheck(id, tier string) int {
 	}
 	tGen := time.Since(t0)
 	pc.discharge()
+	pc.recheckNewHelpers(ps)
 	if os.Getenv("GVC_VERBOSE") != "" {
 		fmt.Fprintf(os.Stderr, "timing: load+generate %.1fs, solve %.1fs\n", tGen.Seconds(), (time.Since(t0) - tGen).Seconds())
 	}
@@ -382,6 +386,169 @@ func (pc *propCheck) thoroughScenarios() {
 	pc.Extra["witness_packages_run"] = nWit
 }
 
+// unclaimedReason: the committed list of unclaimed sites is keyed by obligation name; a site that a
+// refactoring moved into a helper which is inlined into the same function keeps its entry
+// ("f/crash-free[site in helper#1]" is looked up as "f/crash-free[site#1]" too).
+var inHelperRe = regexp.MustCompile(` in [A-Za-z0-9_$().*]+(#\d+\])$`)
+
+func (pc *propCheck) unclaimedReason(name string) (string, bool) {
+	if r, ok := pc.Unclaimed[name]; ok {
+		return r, true
+	}
+	if n := inHelperRe.ReplaceAllString(name, "$1"); n != name {
+		r, ok := pc.Unclaimed[n]
+		return r, ok
+	}
+	return "", false
+}
+
+// recheckNewHelpers: a function that did not exist when the sweeps were last reviewed (an extracted
+// helper) and that has no contract is first verified on its own, for arbitrary arguments. If that
+// fails, the failure only says the helper relies on what its callers establish -- so it is checked
+// where that is known: inlined into every one of its static callers, which are re-verified. The
+// helper's stand-alone obligations are then dropped; a site that fails in the context of a caller is
+// an ordinary failed obligation of that caller. Helpers without static callers in the module, or
+// exported ones, stay as they were (UNDECIDED path in report).
+func (pc *propCheck) recheckNewHelpers(ps *propSpec) {
+	baseline := loadSweepBaseline(pc.ID)
+	if baseline == nil || ps.Sweep == nil {
+		return
+	}
+	p := pc.P
+	for round := 0; round < 3; round++ {
+		var helpers []*funcResult
+		for _, r := range pc.Results {
+			if r.con == nil || !r.con.Default || baseline[r.con.FuncName] || p.fns[r.con.Full] == nil || p.forceInline[r.con.Full] {
+				continue
+			}
+			failing := false
+			for _, o := range r.vc.obls {
+				if o.MustFail || o.Cover || o.Result == nil {
+					continue
+				}
+				if _, un := pc.unclaimedReason(o.Name); un {
+					continue
+				}
+				if o.Result.Status != "unsat" {
+					failing = true
+				}
+			}
+			if failing {
+				helpers = append(helpers, r)
+			}
+		}
+		if len(helpers) == 0 {
+			return
+		}
+		redo := map[string]bool{}
+		for _, h := range helpers {
+			fn := p.fns[h.con.Full]
+			if fn.Object() != nil && fn.Object().Exported() && fn.Signature.Recv() == nil {
+				continue // callable from outside the module with anything
+			}
+			var callers []string
+			ok := true
+			for name, g := range p.fns {
+				if len(g.Blocks) == 0 || g.Synthetic != "" || g == fn || strings.HasSuffix(g.Prog.Fset.Position(g.Pos()).Filename, "_test.go") {
+					continue
+				}
+				for _, b := range g.Blocks {
+					for _, ins := range b.Instrs {
+						switch x := ins.(type) {
+						case *ssa.Call:
+							if x.Call.StaticCallee() == fn {
+								callers = append(callers, name)
+							}
+						case *ssa.Go:
+							if x.Call.StaticCallee() == fn {
+								ok = false
+							}
+						case *ssa.Defer:
+							if x.Call.StaticCallee() == fn {
+								callers = append(callers, name)
+							}
+						case *ssa.MakeClosure:
+							if x.Fn == ssa.Value(fn) {
+								ok = false // a closure: runs when its value is called, not here
+							}
+						default:
+							// the function used as a value
+							for _, op := range ins.Operands(nil) {
+								if *op == ssa.Value(fn) {
+									if c, isCall := ins.(ssa.CallInstruction); !isCall || c.Common().Value != ssa.Value(fn) {
+										ok = false
+									}
+								}
+							}
+						}
+					}
+				}
+			}
+			if !ok || len(callers) == 0 {
+				continue
+			}
+			if p.forceInline == nil {
+				p.forceInline = map[string]bool{}
+			}
+			p.forceInline[h.con.Full] = true
+			for _, c := range callers {
+				redo[c] = true
+			}
+			pc.Extra["in_context_of_callers"] = append(pcNotes(pc), fmt.Sprintf("%s: new function without a contract; its obligations did not discharge for arbitrary arguments, so it is verified inlined into its callers %v", h.con.FuncName, callers))
+		}
+		if len(redo) == 0 {
+			return
+		}
+		// drop the stand-alone results of the helpers, re-verify the callers
+		var keep []*funcResult
+		done := map[string]bool{}
+		for _, r := range pc.Results {
+			switch {
+			case r.con != nil && p.forceInline[r.con.Full] && r.con.Default:
+				continue
+			case r.con != nil && redo[r.con.Full] && !done[r.con.Full]:
+				done[r.con.Full] = true
+				nr := p.verifyFunc(r.con)
+				if ps.Filter != nil {
+					var ko []*Obligation
+					for _, o := range nr.vc.obls {
+						if o.MustFail || o.Cover || o.Kind == "engine" || o.Kind == "contract-binding" || ps.Filter(o) {
+							ko = append(ko, o)
+						}
+					}
+					nr.vc.obls = ko
+				}
+				keep = append(keep, nr)
+			default:
+				keep = append(keep, r)
+			}
+		}
+		// callers that were not under verification at all get the default contract
+		for c := range redo {
+			if !done[c] {
+				fn := p.fns[c]
+				short := strings.ReplaceAll(c, p.pkgPathOf(fn)+".", "")
+				con := &Contract{FuncName: short, Full: c, Pkg: p.pkgPathOf(fn), Props: []string{pc.ID}, File: "(default contract: may_reject)",
+					Clauses: []*Clause{{Kind: "may_reject"}, {Kind: "noframe"}, {Kind: "use", Text: "ast"}}, Default: true}
+				keep = append(keep, p.verifyFunc(con))
+			}
+		}
+		pc.Results = keep
+		pc.Obls = nil
+		for _, r := range pc.Results {
+			pc.Obls = append(pc.Obls, r.vc.obls...)
+		}
+		pc.discharge()
+	}
+}
+
+func pcNotes(pc *propCheck) []string {
+	if v, ok := pc.Extra["in_context_of_callers"].([]string); ok {
+		return v
+	}
+	return nil
+}
+
 func (pc *propCheck) discharge() {
 	// write queries
 	byVC := map[*Obligation]*VC{}
@@ -402,7 +569,7 @@ func (pc *propCheck) discharge() {
 		if o.Result != nil {
 			continue
 		}
-		if _, un := pc.Unclaimed[o.Name]; un && pc.Tier != "thorough" {
+		if _, un := pc.unclaimedReason(o.Name); un && pc.Tier != "thorough" {
 			o.Result = &SolverResult{Status: "skipped", Solver: "unclaimed"}
 			continue
 		}
@@ -517,7 +684,7 @@ func (pc *propCheck) report(t0 time.Time) int {
 			}
 			continue
 		}
-		if reason, un := pc.Unclaimed[o.Name]; un {
+		if reason, un := pc.unclaimedReason(o.Name); un {
 			if ok && o.Result.Status == "unsat" {
 				fmt.Printf("NOTE: property=%s unclaimed obligation now discharges: %s\n", pc.ID, o.Name)
 			}
